@@ -252,8 +252,11 @@ func (s *socket) onError(err error) {
 func (s *socket) schedulePing() {
 	s.pingIntervalTimer.Store(utils.SetTimeout(func() {
 		socket_log.Debug("writing ping packet - expecting pong within %dms", int64(s.server.Opts().PingTimeout()/time.Millisecond))
-		s.sendPacket(packet.PING, nil, nil, nil)
+		// arm the deadline before the ping leaves: a pong that comes back before the
+		// next statement runs would otherwise find no deadline to clear, and the one
+		// armed afterwards would close a responsive client with "ping timeout"
 		s.resetPingTimeout()
+		s.sendPacket(packet.PING, nil, nil, nil)
 	}, s.server.Opts().PingInterval()))
 }
 
